@@ -155,32 +155,46 @@ def patch_cpu_count(n):
         _patch(rfg, "os", _OsWithCpuCount(rfg.os, n))
 
 
+_DISCOVERED = None   # [(owner, attr, kind)] found by the first scan of this process (modules do not change afterwards)
+
+
 def _patch_discovered_seams():
     """Any other uberjob module that (in the tree under test) refers to the `threading` module, imports names from
     it, or holds lock objects created at import time (module globals, class attributes) gets the simulated
     counterparts too - a real lock inside the simulation would block the one running thread for good."""
+    global _DISCOVERED
     import threading as real
 
-    lock_types = (type(real.Lock()), type(real.RLock()))
-    names = ("Lock", "RLock", "Condition", "Event", "Thread")
-    done = {(id(m), a) for m, a, _ in _INSTALLED}
-    for name, mod in sorted(sys.modules.items()):
-        if mod is None or not (name == "uberjob" or name.startswith("uberjob.")):
-            continue
-        d = vars(mod)
-        for attr, val in sorted(d.items()):
-            if (id(mod), attr) in done:
+    if _DISCOVERED is None:
+        lock_types = (type(real.Lock()), type(real.RLock()))
+        names = ("Lock", "RLock", "Condition", "Event", "Thread")
+        done = {(id(m), a) for m, a, _ in _INSTALLED}
+        found = []
+        for name, mod in sorted(sys.modules.items()):
+            if mod is None or not (name == "uberjob" or name.startswith("uberjob.")):
                 continue
-            if val is real:
-                _patch(mod, attr, prims.THREADING)
-            elif attr in names and val is getattr(real, attr):
-                _patch(mod, attr, getattr(prims, attr))
-            elif isinstance(val, lock_types):
-                _patch(mod, attr, prims.RLock() if isinstance(val, lock_types[1]) else prims.Lock())
-            elif isinstance(val, type) and getattr(val, "__module__", None) == name:
-                for cattr, cval in sorted(vars(val).items()):
-                    if isinstance(cval, lock_types):
-                        _patch(val, cattr, prims.RLock() if isinstance(cval, lock_types[1]) else prims.Lock())
+            d = vars(mod)
+            for attr, val in sorted(d.items()):
+                if (id(mod), attr) in done:
+                    continue
+                if val is real:
+                    found.append((mod, attr, "module"))
+                elif attr in names and val is getattr(real, attr):
+                    found.append((mod, attr, "name"))
+                elif isinstance(val, lock_types):
+                    found.append((mod, attr, "rlock" if isinstance(val, lock_types[1]) else "lock"))
+                elif isinstance(val, type) and getattr(val, "__module__", None) == name:
+                    for cattr, cval in sorted(vars(val).items()):
+                        if isinstance(cval, lock_types):
+                            found.append((val, cattr, "rlock" if isinstance(cval, lock_types[1]) else "lock"))
+        _DISCOVERED = found
+    for owner, attr, kind in _DISCOVERED:
+        if kind == "module":
+            _patch(owner, attr, prims.THREADING)
+        elif kind == "name":
+            _patch(owner, attr, getattr(prims, attr))
+        else:
+            _patch(owner, attr, prims.RLock() if kind == "rlock" else prims.Lock())
 
 
 def uninstall():
